@@ -9,7 +9,14 @@ def shape_floats(sh):
                 P=[[n / d for n, d in pt] for pt in sh["P"]])
 
 
-def build(sh, normalize_kv=None, span_func=None, cls=None, evaluator=None, share_kv=False, **extra):
+def _as_alt(x):
+    """the same numbers in another valid representation: tuples instead of lists, Python ints where the value is integral"""
+    if isinstance(x, (list, tuple)):
+        return tuple(_as_alt(v) for v in x)
+    return int(x) if float(x).is_integer() else x
+
+
+def build(sh, normalize_kv=None, span_func=None, cls=None, evaluator=None, share_kv=False, alt_repr=False, **extra):
     """spec shape (JSON form) -> geomdl object.  Raw (non-[0,1]) knot vectors are kept raw unless normalize_kv=True.
     share_kv: directions with equal knot vectors are given the very same list object (as a caller writing
     ``s.knotvector_u = kv; s.knotvector_v = kv`` does)."""
@@ -26,6 +33,9 @@ def build(sh, normalize_kv=None, span_func=None, cls=None, evaluator=None, share
     kw.update(extra)
     C = cls or (mod.Curve, mod.Surface, mod.Volume)[pd - 1]
     o = C(**kw)
+    if alt_repr:
+        # (tuples of ints / floats for control points and knot vectors: an equally valid way to write the same input)
+        f = dict(f, P=[_as_alt(q) for q in f["P"]], kv=[_as_alt(U) for U in f["kv"]])
     if share_kv:
         for d in range(1, pd):
             for e in range(d):
@@ -33,16 +43,16 @@ def build(sh, normalize_kv=None, span_func=None, cls=None, evaluator=None, share
                     f["kv"][d] = f["kv"][e]
     if pd == 1:
         o.degree = f["deg"][0]
-        o.set_ctrlpts([list(p) for p in f["P"]])
-        o.knotvector = list(f["kv"][0])
+        o.set_ctrlpts(tuple(f["P"]) if alt_repr else [list(p) for p in f["P"]])
+        o.knotvector = f["kv"][0] if alt_repr else list(f["kv"][0])
     elif pd == 2:
         o.degree_u, o.degree_v = f["deg"]
-        o.set_ctrlpts([list(p) for p in f["P"]], f["size"][0], f["size"][1])
-        o.knotvector_u, o.knotvector_v = (f["kv"][0], f["kv"][1]) if share_kv else (list(f["kv"][0]), list(f["kv"][1]))
+        o.set_ctrlpts(tuple(f["P"]) if alt_repr else [list(p) for p in f["P"]], f["size"][0], f["size"][1])
+        o.knotvector_u, o.knotvector_v = (f["kv"][0], f["kv"][1]) if (share_kv or alt_repr) else (list(f["kv"][0]), list(f["kv"][1]))
     else:
         o.degree_u, o.degree_v, o.degree_w = f["deg"]
-        o.set_ctrlpts([list(p) for p in f["P"]], *f["size"])
-        o.knotvector_u, o.knotvector_v, o.knotvector_w = f["kv"] if share_kv else [list(U) for U in f["kv"]]
+        o.set_ctrlpts(tuple(f["P"]) if alt_repr else [list(p) for p in f["P"]], *f["size"])
+        o.knotvector_u, o.knotvector_v, o.knotvector_w = f["kv"] if (share_kv or alt_repr) else [list(U) for U in f["kv"]]
     if evaluator is not None:
         o.evaluator = evaluator
     return o
